@@ -51,7 +51,7 @@ def run(tmp, seed, rounds, ENV, HARNESS, overlay, log):
             return res
     res["summary"]["probe"] = mode
     out = os.path.join(tmp, "asmtrace.jsonl")
-    e = dict(ENV, ASMTRACE_OUT=out, ASMTRACE_PER_INDEX=str(rounds), GODEBUG="asyncpreemptoff=1")
+    e = dict(ENV, ASMTRACE_OUT=out, ASMTRACE_PER_INDEX=str(rounds), GODEBUG="asyncpreemptoff=1" + ("," + ENV["VERIF_GODEBUG_EXTRA"] if ENV.get("VERIF_GODEBUG_EXTRA") else ""))
     try:
         g = subprocess.run(["gdb", "-q", "-batch", "-nx", "-x", os.path.join(HERE, "asmtrace_gdb.py"), "--args", probe, str(seed), str(rounds)],
                            env=e, stdout=subprocess.PIPE, stderr=subprocess.STDOUT, text=True, timeout=2400, cwd=tmp)
